@@ -59,6 +59,9 @@ def referenced(e, acc=None):
     elif t == "coll":
         for _, v in MG.resolve_copies(e)["items"]:
             referenced(v, acc)
+    elif t == "array":
+        for m in e["elems"]:
+            referenced(m, acc)
     return sorted(acc)
 
 
@@ -104,7 +107,7 @@ def gen_cases(ctx, n):
     rng = ctx.rng
     cases = []
     for i in range(n):
-        g = MG.Gen(rng, max_depth=2 if ctx.tier == "quick" else 4, big_tuples=True)
+        g = MG.Gen(rng, max_depth=2 if ctx.tier == "quick" else 4, big_tuples=True, arrays=True)
         prog = g.program()
         if len(prog["pool"]) > 40:
             continue
@@ -173,6 +176,8 @@ def expected_instance(e, vec):
         return {"t": "obj", "cls": e["cls"], "fields": fields}
     if t == "coll":
         return {"t": "coll", "fields": [[k, expected_instance(sub, vec)] for k, sub in MG.resolve_copies(e)["items"]]}
+    if t == "array":
+        return {"t": "arr", "shape": e["shape"], "vs": [expected_instance(m, vec)["v"] for m in e["elems"]]}
     raise ValueError(t)
 
 
@@ -184,6 +189,8 @@ def same_inst(a, b):
         return x == y or (x != x and y != y)
     if a["t"] == "tup":
         return len(a["vs"]) == len(b["vs"]) and all(same_inst(x, y) for x, y in zip(a["vs"], b["vs"]))
+    if a["t"] == "arr":
+        return a["shape"] == b["shape"] and [unhex(x) for x in a["vs"]] == [unhex(x) for x in b["vs"]]
     if a["t"] in ("obj", "coll"):
         if a.get("cls") != b.get("cls") or len(a["fields"]) != len(b["fields"]):
             return False
@@ -200,6 +207,11 @@ def navigate(inst, path):
             if not nxt:
                 return None
             cur = nxt[0]
+        elif cur["t"] == "arr":
+            keys = MG.array_keys(cur["shape"])
+            if k not in keys:
+                return None
+            cur = {"t": "v", "v": cur["vs"][keys.index(k)]}
         elif cur["t"] == "tup":
             idx = MG.member_index(k)
             if idx >= len(cur["vs"]):
@@ -287,7 +299,7 @@ def classes_of(c):
 
 def run(ctx):
     ctx.rule = ("composition programs over importable classes (float / tuple (arity 2..13) / nested-class arguments), collections from "
-                "list/dict/kwargs/append, shared priors, constants, arithmetic priors, extra attributes; priors created in an order "
+                "list/dict/kwargs/append, array models (elements assigned out of index order; oracle only), shared priors, constants, arithmetic priors, extra attributes, copies of components with a different fixed value, edit-after-freeze histories; priors created in an order "
                 "unrelated to path order; one vector within limits and one unit vector per program. Non-trivial: >= 2 priors and at "
                 "least one of shared prior, nesting, tuple, arithmetic, constant. Distinct = distinct (program, vector).")
     ctx.trusted = [
